@@ -108,7 +108,7 @@ func (s *Server) formatResults(result *zoekt.SearchResult, query string, localPr
 		}
 
 		if f.SubRepositoryName != "" {
-			fn := strings.TrimPrefix(fMatch.FileName[len(f.SubRepositoryPath):], "/")
+			fn := strings.TrimPrefix(strings.TrimPrefix(fMatch.FileName, f.SubRepositoryPath), "/")
 			fMatch.URL = getURL(f.SubRepositoryName, fn, f.Branches, f.Version)
 		} else {
 			fMatch.URL = getURL(f.Repository, f.FileName, f.Branches, f.Version)
